@@ -143,6 +143,8 @@ def cmd_table():
         det = m.get('detected_by', {})
         caught = [p for p, r in det.items() if r['exit'] == 1]
         missed = [p for p, r in det.items() if r['exit'] == 0]
+        if m.get('verdict'):
+            missed = ['(%s)' % m['verdict']['status']]
         rows.append((name, m.get('property'), (m.get('confirmed') or {}).get('ok'), ','.join(caught) or '-', ','.join(missed) or '-', m.get('summary', '')[:90]))
     for r in rows:
         print('| %s | %s | %s | %s | %s | %s |' % r)
